@@ -25,7 +25,12 @@ var c20Programs = []string{
 // reference predicate: whitespace characters (incl. the two-byte U+0085 and
 // U+00A0), or a comment '#' + arbitrary non-EOL bytes + EOL.
 func c20Separator(name string) string {
-	switch verif.Choice(name+"kind", 3) {
+	return c20SeparatorOf(name, 3)
+}
+
+// c20SeparatorOf limits the separator to the first `kinds` kinds.
+func c20SeparatorOf(name string, kinds int) string {
+	switch verif.Choice(name+"kind", kinds) {
 	case 0: // one whitespace byte
 		b := verif.Byte(name)
 		verif.Assume(b == ' ' || b == '\t' || b == '\v' || b == '\f' || b == '\n' || b == '\r')
@@ -127,9 +132,11 @@ func C20_Gaps() {
 	g1 := verif.Choice("gap1", n+1)
 	g2 := -1
 	if verif.Tier() == 1 {
-		// thorough: a second varied gap, one of the three gaps that follow the
-		// first (all pairs of gaps did not finish within the thorough budget)
-		g2 = g1 + 1 + verif.Choice("gap2", 3)
+		// thorough: a second varied gap, the one that follows the first, with
+		// one arbitrary whitespace byte (all pairs of gaps, and the three
+		// following gaps with every separator kind, did not finish within the
+		// thorough budget)
+		g2 = g1 + 1
 		if g2 > n {
 			g2 = -1
 		}
@@ -137,7 +144,7 @@ func C20_Gaps() {
 	sep1 := c20Separator("sep1")
 	sep2 := ""
 	if g2 >= 0 && g2 != g1 {
-		sep2 = c20Separator("sep2")
+		sep2 = c20SeparatorOf("sep2", 1)
 	}
 	canon, varied := "", ""
 	for i := 0; i < n; i++ {
